@@ -175,6 +175,56 @@ def rule_csv_tables(ctx: Ctx) -> RuleResult:
     return r
 
 
+def rule_csv_merge(ctx: Ctx) -> RuleResult:
+    """CS-2: the quoted-field merger consumes every split piece exactly once."""
+    r = RuleResult("CS-2", "CSV quoted-field merger: every piece of the split line goes, exactly once, into the open quoted field or into the output")
+    m, fn = ctx.function(CSV, "merge_escape_parts")
+    r.instances += 1
+    n_iter = 0
+    seen = set()
+    for p in ctx.fn_paths(m, fn, max_iter=2):
+        r.paths += 1
+        its = [e for e in p.trace if e.k == "loopiter"]
+        if not its or not _normal(p):
+            continue
+        for it in its:
+            t = it.var
+            pos = p.trace.index(it)
+            end = next((k for k in range(pos + 1, len(p.trace)) if p.trace[k].k in ("loopexit", "loopiter")), len(p.trace))
+            body = p.trace[pos + 1:end]
+            is_quote = any(e.k == "decision" and e.test[0] == "cmp" and e.test[1] == "Eq" and {e.test[2], e.test[3]} == {t, ("const", '"')} and e.outcome
+                           for e in body)
+
+            def is_piece(x, t=t, is_quote=is_quote):
+                return x == t or (is_quote and x == ("const", '"'))
+            consumed = []
+            for e in body:
+                if e.k == "mutate" and e.method == "append" and e.args and is_piece(e.args[0]):
+                    consumed.append(e)
+                elif e.k == "assign" and e.value[0] == "list" and any(is_piece(x) for x in e.value[1:]):
+                    consumed.append(e)
+            decs = "; ".join(e.brief() for e in body if e.k == "decision")
+            sig = (it.k, decs, len(consumed))
+            if sig in seen:
+                continue
+            seen.add(sig)
+            n_iter += 1
+            r.groups.add(("merge", n_iter))
+            r.ob(len(consumed) == 1, lambda decs=decs, consumed=consumed, it=it: Finding(
+                "CS-2", "%s::merge_escape_parts{piece}" % CSV, m.where(it.node),
+                "on the path [%s] a piece of the split line is %s: the re-assembled quoted field loses or repeats a separator-delimited part" % (
+                    decs, "dropped" if not consumed else "consumed %d times" % len(consumed)), trace_of(p)))
+            # a closed quoted field is re-joined with the separator
+            for e in body:
+                if e.k == "mutate" and e.method == "append" and e.args and e.args[0][0] == "mcall" and e.args[0][2] == "join":
+                    r.ob(e.args[0][1] == ("arg", "separator"), lambda e=e: Finding(
+                        "CS-2", "%s::merge_escape_parts{join}" % CSV, m.where(e.node), "the pieces of a quoted field must be re-joined with the separator; joined with %s" % show(e.args[0][1])))
+    if n_iter < 5:
+        raise AnalysisError("merge_escape_parts: fewer than 5 loop-body paths found (%d)" % n_iter)
+    r.require_instances(1)
+    return r
+
+
 def rule_dp7(ctx: Ctx) -> RuleResult:
     r = RuleResult("DP-7", "the float parser does not assemble its value as f(integer part) + g(fraction part) (wrong for negative numbers)")
     mt, ft = ctx.function(CSV, "type_parser")
